@@ -1,5 +1,7 @@
-//! Contracts compiled from Cairo source (feature `source`): every contract of
-//! /repo/crates/cairo-lang-starknet/cairo_level_tests through cairo_lang_starknet::compile.
+//! Classes produced by the compiler of the tree under test from Cairo source
+//! (cairo_lang_starknet::compile): the contracts of cairo_level_tests and generated contracts
+//! (gen.rs), and the checks that tie the produced `ContractClass` to its source/ABI.
+use std::collections::BTreeMap;
 use std::path::Path;
 
 use cairo_lang_compiler::CompilerConfig;
@@ -9,18 +11,28 @@ use cairo_lang_defs::ids::TopLevelLanguageElementId;
 use cairo_lang_filesystem::ids::CrateInput;
 use cairo_lang_lowering::optimizations::config::Optimizations;
 use cairo_lang_lowering::utils::InliningStrategy;
+use cairo_lang_sierra::program::Program;
 use cairo_lang_starknet::compile::compile_prepared_db;
 use cairo_lang_starknet::contract::find_contracts;
 use cairo_lang_starknet::starknet_plugin_suite;
-use cairo_lang_starknet_classes::contract_class::ContractClass;
+use cairo_lang_starknet_classes::abi::Item;
+use cairo_lang_starknet_classes::contract_class::{ContractClass, ContractEntryPoint};
+use cairo_lang_starknet_classes::keccak::starknet_keccak;
+use num_bigint::BigUint;
+use serde_json::json;
 
-pub const CONTRACTS_CRATE: &str = "/repo/crates/cairo-lang-starknet/cairo_level_tests";
+use crate::gencontract::{GenContract, Kind};
+use crate::oracle::Failure;
 
-/// (full path of the contract module, compiled class) or the reason nothing was compiled.
-pub fn compile_all() -> Result<Vec<(String, ContractClass)>, String> {
+pub fn contracts_crate() -> String {
+    format!("{}/crates/cairo-lang-starknet/cairo_level_tests", crate::repo())
+}
+
+/// Compiles every contract of the crate at `path`: (full path of the contract module, class).
+pub fn compile_crate(path: &str) -> Result<Vec<(String, ContractClass)>, String> {
     // detect_corelib looks two levels above $CARGO_MANIFEST_DIR (the compiler's development layout)
     // SAFETY: single-threaded at this point.
-    unsafe { std::env::set_var("CARGO_MANIFEST_DIR", "/repo/crates/cairo-lang-starknet") };
+    unsafe { std::env::set_var("CARGO_MANIFEST_DIR", format!("{}/crates/cairo-lang-starknet", crate::repo())) };
     let r = vcommon::catch(std::panic::AssertUnwindSafe(|| -> Result<Vec<(String, ContractClass)>, String> {
         let mut db = RootDatabase::builder()
             .with_optimizations(Optimizations::enabled_with_default_movable_functions(InliningStrategy::Default))
@@ -28,7 +40,7 @@ pub fn compile_all() -> Result<Vec<(String, ContractClass)>, String> {
             .with_default_plugin_suite(starknet_plugin_suite())
             .build()
             .map_err(|e| format!("{e}"))?;
-        let inputs = setup_project(&mut db, Path::new(CONTRACTS_CRATE)).map_err(|e| format!("{e}"))?;
+        let inputs = setup_project(&mut db, Path::new(path)).map_err(|e| format!("{e}"))?;
         let mut cfg = CompilerConfig { replace_ids: true, ..CompilerConfig::default() };
         cfg.diagnostics_reporter = cfg.diagnostics_reporter.with_crates(&inputs).allow_warnings();
         let ids = CrateInput::into_crate_ids(&db, inputs);
@@ -40,6 +52,145 @@ pub fn compile_all() -> Result<Vec<(String, ContractClass)>, String> {
     }));
     match r {
         Ok(x) => x,
-        Err(p) => Err(format!("panic: {p}")),
+        Err(p) => Err(format!("panic: {p} @ {}", vcommon::last_panic_location())),
+    }
+}
+
+fn hex(v: &BigUint) -> String {
+    format!("0x{}", v.to_str_radix(16))
+}
+
+/// The entry points the ABI declares: (kind, name).
+fn abi_entry_points(cc: &ContractClass) -> Option<Vec<(Kind, String)>> {
+    let abi = cc.abi.clone()?;
+    let items: Vec<Item> = abi.into_iter().collect();
+    let mut interfaces: BTreeMap<String, Vec<Item>> = BTreeMap::new();
+    for it in &items {
+        if let Item::Interface(i) = it {
+            interfaces.insert(i.name.clone(), i.items.clone());
+        }
+    }
+    let mut res = vec![];
+    for it in &items {
+        match it {
+            Item::Function(f) => res.push((Kind::External, f.name.clone())),
+            Item::L1Handler(f) => res.push((Kind::L1Handler, f.name.clone())),
+            Item::Constructor(f) => res.push((Kind::Constructor, f.name.clone())),
+            Item::Impl(imp) => {
+                for sub in interfaces.get(&imp.interface_name)? {
+                    if let Item::Function(f) = sub {
+                        res.push((Kind::External, f.name.clone()));
+                    }
+                }
+            }
+            _ => {}
+        }
+    }
+    Some(res)
+}
+
+/// Invariants of the `ContractClass` the compiler emitted, against its own ABI, its Sierra debug
+/// names and (for generated contracts) the source it was compiled from.
+pub fn check_compiler_output(
+    name: &str,
+    origin: &str,
+    cc: &ContractClass,
+    program: &Program,
+    generated: Option<&GenContract>,
+    out: &mut Vec<Failure>,
+) {
+    let mut fail = |why: String, fp: &str, detail: serde_json::Value| {
+        out.push(Failure {
+            class: name.to_string(),
+            variation: "compiler output".into(),
+            why,
+            fingerprint: fp.to_string(),
+            detail: json!({"source": origin, "contract": name, "detail": detail}),
+        })
+    };
+    let tables: [(Kind, &str, &Vec<ContractEntryPoint>); 3] = [
+        (Kind::External, "EXTERNAL", &cc.entry_points_by_type.external),
+        (Kind::L1Handler, "L1_HANDLER", &cc.entry_points_by_type.l1_handler),
+        (Kind::Constructor, "CONSTRUCTOR", &cc.entry_points_by_type.constructor),
+    ];
+    for (_, tname, t) in &tables {
+        for w in t.windows(2) {
+            if w[0].selector >= w[1].selector {
+                fail(
+                    format!("{tname} entry points of the contract class are not strictly sorted by selector"),
+                    "cc-unsorted",
+                    json!({"selectors": t.iter().map(|e| hex(&e.selector)).collect::<Vec<_>>()}),
+                );
+                break;
+            }
+        }
+        for e in t.iter() {
+            if e.function_idx >= program.funcs.len() {
+                fail(format!("{tname}: function_idx {} names no Sierra function", e.function_idx), "cc-function-idx", json!({}));
+            }
+        }
+    }
+    if cc.entry_points_by_type.constructor.len() > 1 {
+        fail("more than one constructor".into(), "cc-constructors", json!({}));
+    }
+    // ABI <-> entry points
+    let names = cc.sierra_program_debug_info.as_ref().map(|d| &d.user_func_names);
+    match abi_entry_points(cc) {
+        None => fail("the class has no (well-formed) ABI".into(), "cc-abi", json!({})),
+        Some(abi) => {
+            for (kind, tname, t) in &tables {
+                let declared: Vec<&String> = abi.iter().filter(|(k, _)| k == kind).map(|(_, n)| n).collect();
+                if declared.len() != t.len() {
+                    fail(
+                        format!("{tname}: the ABI declares {} entry points, the class has {}", declared.len(), t.len()),
+                        "cc-abi-count",
+                        json!({"abi": declared}),
+                    );
+                }
+                for n in declared {
+                    let sel = starknet_keccak(n.as_bytes());
+                    let hits: Vec<&ContractEntryPoint> = t.iter().filter(|e| e.selector == sel).collect();
+                    if hits.len() != 1 {
+                        fail(
+                            format!("{tname}: ABI function `{n}` has {} entry points with selector keccak(name)", hits.len()),
+                            "cc-abi-selector",
+                            json!({"name": n, "selector": hex(&sel)}),
+                        );
+                        continue;
+                    }
+                    // the Sierra function it points at is the wrapper of that function
+                    if let (Some(names), Some(f)) = (names, program.funcs.get(hits[0].function_idx)) {
+                        match names.get(&f.id) {
+                            // (generic wrappers carry their arguments: `..__wrapper__Impl__name::<..>`)
+                            Some(dn)
+                                if dn.contains("__wrapper__")
+                                    && dn.split("::<").next().unwrap_or("").ends_with(&format!("__{n}")) => {}
+                            other => fail(
+                                format!("{tname}: entry point of `{n}` points at Sierra function {:?}, not its wrapper", other),
+                                "cc-wrapper",
+                                json!({"name": n, "function_idx": hits[0].function_idx}),
+                            ),
+                        }
+                    }
+                }
+            }
+        }
+    }
+    // against the generated source
+    if let Some(g) = generated {
+        for (kind, tname, t) in &tables {
+            let mut expected: Vec<BigUint> = g.fns.iter().filter(|f| f.kind == *kind).map(|f| f.selector()).collect();
+            expected.sort();
+            let got: Vec<BigUint> = t.iter().map(|e| e.selector.clone()).collect();
+            let mut got_sorted = got.clone();
+            got_sorted.sort();
+            if expected != got_sorted {
+                fail(
+                    format!("{tname}: selectors of the class are not those of the functions in the source"),
+                    "cc-source-selectors",
+                    json!({"source": g.fns.iter().filter(|f| f.kind == *kind).map(|f| f.name.clone()).collect::<Vec<_>>()}),
+                );
+            }
+        }
     }
 }
